@@ -75,6 +75,8 @@ Definition trim_both (f : ascii -> bool) (s : string) : string := srev (trim_lef
 Definition trim_space (s : string) : string := trim_both is_space s.
 (* strings.Trim(s, cutset of one character) *)
 Definition trim_char (c : ascii) (s : string) : string := trim_both (aeqb c) s.
+(* s[1 : len(s)-1] for a string of at least two characters *)
+Definition strip_ends (s : string) : string := srev (drop 1 (srev (drop 1 s))).
 Definition trim_prefix (p s : string) : string := if prefixb p s then drop (slen p) s else s.
 
 (* strings.Split(s, sep of one character): always at least one element *)
